@@ -296,4 +296,23 @@ def expect (e : Expr F) (want : Option Ty) (h : Hist F) : Expect F × Option (Hi
     | _ => (.mustErr, keep)
 
 end
+/-! ### points -/
+
+/-- What a reference denotes at a point: `time` is the point's time, any other name its field of that name,
+or else its tag of that name (a string), or else the missing value. A name that is both a field and a tag is
+ambiguous (`none`). -/
+def denote {F : Type} (p : Point F) (n : String) : Option (Value F) :=
+  if n = "time" then some (.time p.time) else
+  match (p.fields.find? (fun x => x.1 == n)), (p.tags.find? (fun x => x.1 == n)) with
+  | some _, some _ => none
+  | some f, none => some f.2
+  | none, some t => some (.str t.2)
+  | none, none => some .missing
+
+/-- The reference answer for a predicate evaluated against a point: an ambiguous reference is an error for
+that point; otherwise the references are bound to what they denote and the predicate is evaluated as a boolean. -/
+def expectPoint {F : Type} (ctx : Ctx F) (e : Expr F) (p : Point F) (h : Hist F) : Expect F × Option (Hist F) :=
+  if (refsOf e).any (fun n => (denote p n).isNone) then (.mustErr, some h)
+  else expect ctx ((refsOf e).filterMap (fun n => (denote p n).map (fun v => (n, v)))) e (some .bool) h
+
 end Kap.C04
